@@ -1,3 +1,4 @@
 pub mod core;
 pub mod rng;
+pub mod sdk;
 pub use crate::core::{catch, digest, quiet_panics, CaseResult, Fail, Run, Tier};
